@@ -13,7 +13,48 @@ class C20(ProgProp):
     cfg = {"p_sync": 0.12, "p_try": 0.1, "p_ctx": 0.08, "p_sv": 0.05, "p_fault": 0.12, "item_faults": 0.05,
            "flush_faults": 0.06, "p_timer": 0.05, "p_item_value_sync": 0.5, "max_kinds": 3}
 
+    def _guard_motif(self, rng):
+        """The runaway guard trips while a batch that was flushed synchronously (item.value()
+        inside a task) is still registered with the scheduler; user priorities look at their
+        batch's first request. The pre-error dump must not change what the program sees."""
+        kinds = rng.randint(1, 2)
+        depth = rng.randint(3, 7)
+
+        def item():
+            return ["item", rng.randint(0, kinds - 1), rng.randint(0, 4)]
+        waiter = {"kind": "fn", "steps": [["y", item()] for _ in range(rng.randint(1, 2))]}
+        flusher_steps = [["s", item(), "value"], ["y", ["call", 3, []]]]
+        if rng.random() < 0.5:
+            flusher_steps.insert(0, ["y", item()])
+        if rng.random() < 0.4:
+            flusher_steps = [["try", flusher_steps, "all", [["y", item()]]]]
+        flusher = {"kind": "fn", "steps": flusher_steps}
+        templates = [None, waiter, flusher]
+        for d in range(depth):
+            nxt = ["call", 4 + d, []] if d < depth - 1 else item()
+            templates.append({"kind": "fn", "steps": [["y", nxt]]})
+        calls = [["call", 1, []], ["call", 2, []]]
+        if rng.random() < 0.5:
+            calls.append(["call", 1, []])
+        rng.shuffle(calls)
+        root = [["y", [rng.choice(["t", "l"]), calls]]]
+        if rng.random() < 0.4:
+            root = [["try", root, "all", [["y", item()]]]]
+        templates[0] = {"kind": "fn", "steps": root}
+        return {"templates": templates, "root": {"tmpl": 0, "conv": rng.choice(["call", "value", "wrapped"])},
+                "kinds": kinds, "svs": 1, "yield_only": False, "reentry": True,
+                "faults": {"items": {}, "flushes": {}, "ctx": {}}, "prio": gen.gen_prio(rng, kinds),
+                "prio_nonempty": True, "max_stack": rng.randint(3, depth + 2)}
+
     def gen(self, rng, tier, k):
+        if k % 16 == 5:
+            spec = self._guard_motif(rng)
+            options = {"DUMP_PRE_ERROR_STATE": not real.DEFAULT_OPTIONS["DUMP_PRE_ERROR_STATE"]}
+            for o in real.BOOL_OPTIONS:
+                if rng.random() < 0.15:
+                    options[o] = not real.DEFAULT_OPTIONS[o]
+            return {"spec": spec, "options": options, "clock": {"seed": rng.randint(0, 10 ** 6), "mode": rng.choice(["small", "mixed", "huge"])},
+                    "dump_interval": rng.choice([0, 1, 3600])}
         cfg = gen.swarm(rng, self.base_cfg(tier))
         spec = gen.gen_program(rng, cfg)
         r = rng.random()
@@ -40,6 +81,11 @@ class C20(ProgProp):
                 del spec["faults"]["items"][key]
             for key in [x for x in spec["faults"]["flushes"] if int(x.split("#")[0]) in spec["native_debug_kinds"]]:
                 del spec["faults"]["flushes"][key]
+        if rng.random() < 0.3:
+            spec["prio_nonempty"] = True
+        if rng.random() < 0.08:
+            # the runaway guard trips (same RuntimeError whatever the options)
+            spec["max_stack"] = rng.randint(2, 6)
         if rng.random() < 0.15:
             spec["faults"].setdefault("ctx", {})["#%d" % rng.randint(1, 4)] = ["resume", rng.randint(2, 3)]
         clock = {"seed": rng.randint(0, 10 ** 6), "mode": rng.choice(["small", "mixed", "huge", "huge"])}
@@ -57,13 +103,13 @@ class C20(ProgProp):
         base = copy.deepcopy(spec)
         base["clock"] = case["clock"]
         r0 = progsim.execute(base, (), check_values=False)
-        t0 = r0["B"].trace
+        t0 = r0["trace"]
         alt = copy.deepcopy(spec)
         alt["clock"] = case["clock"]
         alt["options"] = case["options"]
         alt["dump_interval"] = case.get("dump_interval", 1)
         r1 = progsim.execute(alt, (), check_values=False)
-        t1 = r1["B"].trace
+        t1 = r1["trace"]
         out = []
         if r0["outcome"] != r1["outcome"]:
             out.append(("outcome", "with options %s the computation gives %r, with defaults %r"
